@@ -15,7 +15,7 @@ META = {
             "uncategorised one, 2 metrics); every call is bracketed by a global sequence number.  TLC checks per round that every "
             "cleared counter summed over all reports (incl. the final one at quiescence) equals the number of recorded events and "
             "that each report's inProgress lies between the smallest and largest value of started - finished inside the window of "
-            "its stats() call; long runs (4 x 5000 calls with a tight snapshot loop per round) are checked on per-round aggregates.",
+            "its stats() call; long runs (4 x 100000 calls with a tight snapshot loop per round) are checked on per-round aggregates.",
     "note": "Schedules of the real code are not controlled (no hooks): the concurrency clauses are checked on whatever interleavings "
             "the stress produces; the exhaustive interleaving argument is the model's.  Server loads are small integers so that the "
             "float sums are exact.",
@@ -35,18 +35,20 @@ def run(ctx):
     ctx.neg("LoadStoreMC", "LoadStoreNeg.cfg", expect="I_Totals", workers=2)
     binary = ctx.go_build("internal/xds/clients/lrsclient", name="c50", only=r"zz_verif_c50_")
     t1 = os.path.join(ctx.run, "trace-rounds.ndjson")
-    n = ctx.pick(150, 1500)
+    n = ctx.pick(150, 1000)
     ctx.driver(binary, "TestVerifC50Rounds", {"VERIF_OUT": t1, "VERIF_N": n})
-    ctx.count({"rounds": n, "seed": ctx.seed}, n=n)
+    for r in range(n):
+        ctx.count({"detailed_round": r, "seed": ctx.seed})
     judge(ctx, ctx.validate("LoadStoreTrace", "LoadStoreTrace.cfg", t1, count_resets=False), t1, "detailed rounds seed %d" % ctx.seed)
     ctx.cov["traces_validated_against_impl"] += n
     t2 = os.path.join(ctx.run, "trace-bulk.ndjson")
-    n2 = ctx.pick(30, 300)
-    ctx.driver(binary, "TestVerifC50Bulk", {"VERIF_OUT": t2, "VERIF_N": n2, "VERIF_OPS": 5000})
-    ctx.count({"bulk_rounds": n2, "seed": ctx.seed}, n=n2)
+    n2 = ctx.pick(20, 100)
+    ctx.driver(binary, "TestVerifC50Bulk", {"VERIF_OUT": t2, "VERIF_N": n2, "VERIF_OPS": 100000})
+    for r in range(n2):
+        ctx.count({"bulk_round": r, "seed": ctx.seed})
     judge(ctx, ctx.validate("LoadStoreTrace", "LoadStoreTrace.cfg", t2, count_resets=False), t2, "bulk rounds seed %d" % ctx.seed)
     ctx.cov["traces_validated_against_impl"] += n2
     ctx.assumptions += ["CallFinished / CallServerLoad are only called for calls that were started (the locality's entry exists)",
                         "real schedules are whatever the Go scheduler produces under stress (not enumerated)"]
     ctx.cov["rule"] = ("one case = one stress round of the real PerClusterReporter (2-4 goroutines x 10-49 calls, up to 6 concurrent "
-                       "snapshots + the final one) or one bulk round (4 x 5000 calls, snapshot loop); distinct by seed and round")
+                       "snapshots + the final one) or one bulk round (4 x 100000 calls, snapshot loop); distinct by seed and round")
